@@ -36,6 +36,11 @@ type c19Case struct {
 	Broken     int            `json:"broken"` // index of a program with a syntax error appended, -1 = none
 	Files      []c19File      `json:"files"`
 	GoMaxProcs int            `json:"gomaxprocs,omitempty"`
+	// Glob: 0 the files are named one by one; > 0 they are named by one pattern
+	// (logs/*.log); 2-4 the pattern also matches an entry that cannot be tailed
+	// (a symbolic link to a character device) sorting before, between or after
+	// the files
+	Glob int `json:"glob,omitempty"`
 }
 
 func (f c19File) bytes() string {
@@ -133,6 +138,14 @@ func runC19x(c c19Case) *vstat.Failure {
 		must(os.WriteFile(p, []byte(f.bytes()), 0o644))
 		paths = append(paths, p)
 	}
+	patterns := paths
+	if c.Glob > 0 {
+		patterns = []string{filepath.Join(logDir, "*.log")}
+		if c.Glob >= 2 {
+			name := []string{"a.log", "f0x.log", "z.log"}[(c.Glob-2)%3]
+			must(os.Symlink("/dev/null", filepath.Join(logDir, name)))
+		}
+	}
 	if c.GoMaxProcs > 0 {
 		old := goruntime.GOMAXPROCS(c.GoMaxProcs)
 		defer goruntime.GOMAXPROCS(old)
@@ -146,7 +159,7 @@ func runC19x(c c19Case) *vstat.Failure {
 	}
 	nch := make(chan newRes, 1)
 	go func() {
-		s, err := mtail.New(ctx, store, mtail.ProgramPath(progDir), mtail.LogPathPatterns(paths...), mtail.OneShot,
+		s, err := mtail.New(ctx, store, mtail.ProgramPath(progDir), mtail.LogPathPatterns(patterns...), mtail.OneShot,
 			mtail.LogstreamPollWaker(newWaker()), mtail.LogPatternPollWaker(newWaker()))
 		nch <- newRes{s, err}
 	}()
@@ -329,7 +342,7 @@ func c19RunRaw(raw json.RawMessage) *vstat.Failure {
 }
 
 func TestC19(t *testing.T) {
-	st := vstat.New("C19", "one-shot runs of a real mtail server (mtail.New with OneShot, then Run) over 1-3 programs from the typed grammar G plus a witness program that records the arrival order, and 1-3 files with generated contents (lines instantiated from the programs' patterns; empty files, CRLF, a final unterminated line, 0-200 lines); oracle: Run returns within a deadline; the witness saw every line of every file exactly once and each file's lines in order; every program's final metrics equal those of running it in-process over exactly that interleaving. A set containing a program that does not compile must be refused promptly. non-trivial = >= 2 files and >= 2 programs (witness included) and a file with an unterminated last line; distinct by case")
+	st := vstat.New("C19", "one-shot runs of a real mtail server (mtail.New with OneShot, then Run) over 1-3 programs from the typed grammar G plus a witness program that records the arrival order, and 1-3 files, named one by one or by a glob pattern that may also match an entry that cannot be tailed, with generated contents (lines instantiated from the programs' patterns; empty files, CRLF, a final unterminated line, 0-200 lines); oracle: Run returns within a deadline; the witness saw every line of every file exactly once and each file's lines in order; every program's final metrics equal those of running it in-process over exactly that interleaving. A set containing a program that does not compile must be refused promptly. non-trivial = >= 2 files and >= 2 programs (witness included) and a file with an unterminated last line; distinct by case")
 	st.Assumptions = []string{"every program is handed the lines in the same global order (one dispatcher), so the witness's record is the interleaving of all programs", "30 s deadline for a run that normally takes milliseconds"}
 	st.Run(t, c19RunRaw, func() {
 		feats := gen.AllFeatures()
@@ -379,6 +392,10 @@ func TestC19(t *testing.T) {
 					unterminated = true
 				}
 				c.Files = append(c.Files, f)
+			}
+			c.Glob = rapid.SampledFrom([]int{0, 0, 1, 2, 3, 4}).Draw(rt, "glob")
+			if c.Glob >= 2 {
+				st.Class("pattern-matches-an-untailable-entry")
 			}
 			if vstat.Thorough() {
 				c.GoMaxProcs = rapid.SampledFrom([]int{0, 1, 2, 16}).Draw(rt, "gomaxprocs")
